@@ -35,8 +35,11 @@ def scalar_binop(op, a, b):
     both_int = z3.is_int(a) and z3.is_int(b)
     if op == "Div":
         a, b = to_real(a), to_real(b)
-        A.oblige("div.nonzero", b != 0, "division by zero") if both_int and False else None
-        return a / b
+        r = a / b
+        if not z3.is_rational_value(b):
+            # valid in the reals; spelled out because the solver does not cancel (a/b)*b by itself
+            A.note_fact(z3.Implies(b != 0, r * b == a))
+        return r
     if not both_int:
         a, b = to_real(a), to_real(b)
     if op == "Add":
@@ -48,7 +51,11 @@ def scalar_binop(op, a, b):
     if op == "FloorDiv":
         if both_int:
             A.oblige("div.nonzero", b != 0, "integer division by zero")
-            return py_floordiv(a, b)
+            q = py_floordiv(a, b)
+            if not z3.is_int_value(b):
+                # definition of floor division for a symbolic divisor (the solver only knows it for literals)
+                A.note_fact(z3.Implies(b > 0, z3.And(b * q <= a, a < b * q + b)), z3.Implies(b < 0, z3.And(b * q >= a, a > b * q + b)))
+            return q
         return z3.ToReal(z3.ToInt(a / b))
     if op == "Mod":
         if both_int:
